@@ -7,6 +7,7 @@ consume a *script* of choices and a driver enumerates scripts depth first
 aliasing/mutation semantics of lists, dicts and objects come for free).
 """
 import ast
+import time
 import copy
 import math
 from fractions import Fraction
@@ -354,6 +355,8 @@ class Interp:
             return getattr(builtins, nm)
         if nm in self.spec_env:
             return self.spec_env[nm]
+        if fr.spec and self.spec_alias.get(nm) in fr.env:
+            return fr.env[self.spec_alias[nm]]      # a local that a loop annotation names was renamed in the code (see loop_spec)
         raise Raised(self.mk_exc('NameError')) if not fr.spec else Unsupported('unknown name in spec: ' + nm)
 
     def e_JoinedStr(self, node, fr):
@@ -721,6 +724,8 @@ class Interp:
     filters = []
 
     def e_Call(self, node, fr):
+        if self.deadline and time.time() > self.deadline:
+            raise Unsupported('VC generation exceeded its time budget (path explosion after a restructuring?)')
         # attribute call: method dispatch with knowledge of the receiver's location
         if isinstance(node.func, ast.Attribute):
             base = self.eval(node.func.value, fr)
@@ -951,9 +956,12 @@ class Interp:
         if m is None:
             raise Unsupported('statement %s (line %d)' % (type(s).__name__, s.lineno))
         self.cur_line = s.lineno
+        if self.deadline and time.time() > self.deadline:
+            raise Unsupported('VC generation exceeded its time budget (path explosion after a restructuring?)')
         return m(s, fr)
 
     cur_line = 0
+    deadline = 0
 
     def s_Expr(self, s, fr):
         if isinstance(s.value, ast.Constant):
@@ -1212,9 +1220,56 @@ class Interp:
         loops.sort(key=lambda n: (n.lineno, n.col_offset))
         return [i for i, n in enumerate(loops) if n.lineno <= lineno <= n.end_lineno]
 
+    spec_alias = {}
+
     def loop_spec(self, node, fr):
         o = self.loop_ordinal(node, fr)
-        return o, (self.loops.get(fr.fi.key) or {}).get(o)
+        spec = (self.loops.get(fr.fi.key) or {}).get(o)
+        if spec is not None and not fr.spec:
+            spec = self.resolve_renamed(node, spec, fr)
+        return o, spec
+
+    def resolve_renamed(self, node, spec, fr):
+        """A loop annotation names locals of the function.  If exactly one of the names it uses no longer exists and exactly one variable
+        that the loop body updates (and that exists before the loop) is not mentioned by the annotation, the missing name is taken to be
+        that variable (a rename of the accumulator).  This only changes which proof is ATTEMPTED: every obligation is still checked."""
+        texts = list(spec.get('invariant', [])) + list(spec.get('transition', [])) + ([spec['variant']] if spec.get('variant') else [])
+        used = set()
+        for t in texts:
+            try:
+                for n in ast.walk(self.parse_spec(t)):
+                    if isinstance(n, ast.Name):
+                        used.add(n.id)
+            except SyntaxError:
+                return spec
+        used |= {k for k in (spec.get('types') or {}) if '.' not in k}
+        lam_args = set()
+        for t in texts:
+            for n in ast.walk(self.parse_spec(t)):
+                if isinstance(n, ast.Lambda):
+                    lam_args |= {a.arg for a in n.args.args}
+        import builtins
+        known = lambda nm: nm in fr.env or nm in self.spec_env or nm in fr.ns or hasattr(builtins, nm) or nm in lam_args or \
+            nm in (spec.get('index'), 'self', 'result') or nm in (spec.get('ghost') or {})
+        missing = [nm for nm in used if not known(nm)]
+        if len(missing) != 1:
+            return spec
+        names, _ = self.modified_in(node.body, fr)
+        tgt = set()
+        if isinstance(node, ast.For):
+            tgt = {n.id for n in ast.walk(node.target) if isinstance(n, ast.Name)}
+        cands = [m for m in names if m in fr.env and m not in used and m not in tgt]
+        if len(cands) != 1:
+            return spec
+        u, m = missing[0], cands[0]
+        self.spec_alias[u] = m
+        spec = dict(spec)
+        if u in (spec.get('types') or {}):
+            ty = dict(spec['types'])
+            ty[m] = ty.pop(u)
+            spec['types'] = ty
+        self.trusted_used.add('loop annotation of %s names `%s`; the code now calls it `%s`' % (fr.fi.key, u, m))
+        return spec
 
     def concrete_items(self, it):
         """list of items if the iterable can be unrolled, else None"""
